@@ -329,7 +329,24 @@ func SortGateways(gws []NetworkGateway) []NetworkGateway {
 		if r := cmp.Compare(a.Addr, b.Addr); r != 0 {
 			return r
 		}
-		return cmp.Compare(a.Port, b.Port)
+		if r := cmp.Compare(a.Port, b.Port); r != 0 {
+			return r
+		}
+		// Gateways are kept as a set of values: two of them can share address and port and differ in the rest.
+		// Break these ties as well, so that the order does not depend on the order of the input.
+		if r := cmp.Compare(a.Network, b.Network); r != 0 {
+			return r
+		}
+		if r := cmp.Compare(a.Cluster, b.Cluster); r != 0 {
+			return r
+		}
+		if r := cmp.Compare(a.HBONEPort, b.HBONEPort); r != 0 {
+			return r
+		}
+		if r := cmp.Compare(a.ServiceAccount.Namespace, b.ServiceAccount.Namespace); r != 0 {
+			return r
+		}
+		return cmp.Compare(a.ServiceAccount.Name, b.ServiceAccount.Name)
 	})
 }
 
